@@ -56,6 +56,14 @@ W5 = {"name": "w5", "ignore": "packaged/\n", "package_dir": None, "buildpacks": 
 ]}
 
 
+# nested buildpack directories: the workspace root is itself a (composite) buildpack
+W6 = {"name": "w6", "ignore": "packaged/\n", "package_dir": None, "buildpacks": [
+    {"id": "verif/root-meta", "dir": "", "kind": "composite", "deps": ["libcnb:verif/inner"]},
+    {"id": "verif/inner", "dir": "nested/inner", "kind": "libcnb", "pkg": "inner", "bins": ["inner"]},
+    {"id": "verif/second", "dir": "nested/second", "kind": "libcnb", "pkg": "second", "bins": ["second"]},
+]}
+
+
 def bp_toml(bp):
     head = f'api = "0.10"\n\n[buildpack]\nid = "{bp["id"]}"\nversion = "0.1.0"\n# marker {bp["dir"]}\n'
     if bp["kind"] == "composite":
@@ -71,8 +79,8 @@ def generate(ws, root):
     # the documented setup: every output directory is covered by an ignore file
     open(os.path.join(root, ".ignore"), "w").write(ws["ignore"] + "rel-out/\ndist/\n")
     for bp in ws["buildpacks"]:
-        d = os.path.join(root, bp["dir"])
-        os.makedirs(d)
+        d = os.path.join(root, bp["dir"]) if bp["dir"] else root
+        os.makedirs(d, exist_ok=True)
         open(os.path.join(d, "buildpack.toml"), "w").write(bp_toml(bp))
         if bp["kind"] == "libcnb":
             open(os.path.join(d, "Cargo.toml"), "w").write(f'[package]\nname = "{bp["pkg"]}"\nversion = "0.1.0"\nedition = "2021"\n')
@@ -229,6 +237,9 @@ def invoke(ws, root, cwd_rel, release=False, package_dir_arg=None, strace_inject
 
 def selected_for(ws, cwd_rel):
     if not cwd_rel:
+        at_root = [bp["id"] for bp in ws["buildpacks"] if bp["dir"] == "" and bp["kind"] in ("libcnb", "composite")]
+        if at_root:
+            return at_root
         return [bp["id"] for bp in ws["buildpacks"] if bp["kind"] in ("libcnb", "composite")]
     return [bp["id"] for bp in ws["buildpacks"] if bp["dir"] == cwd_rel and bp["kind"] in ("libcnb", "composite")]
 
@@ -333,11 +344,11 @@ def run(ctx):
     build_packager()
     if not os.path.exists(SHIM):
         raise Machinery("libdetrand.so not built")
-    workspaces = [W1, W2, W3, W4] + ([W5] if ctx.thorough else [])
+    workspaces = [W1, W2, W3, W4, W6] + ([W5] if ctx.thorough else [])
     crash_ws = [W1] + ([W2] if ctx.thorough else [])
     if ctx.replay:
         rp = json.load(open(ctx.replay))["replay"]
-        workspaces = [w for w in [W1, W2, W3, W4, W5] if w["name"] == rp["workspace"]]
+        workspaces = [w for w in [W1, W2, W3, W4, W5, W6] if w["name"] == rp["workspace"]]
         crash_ws = workspaces if rp.get("fault") or rp.get("seed") else []
     evals = 0
     outcomes = set()
@@ -349,7 +360,8 @@ def run(ctx):
         roots[ws["name"]] = root
         invocations = [("", False, ws["package_dir"])]
         for bp in ws["buildpacks"]:
-            invocations.append((bp["dir"], False, ws["package_dir"] and os.path.join(root, ws["package_dir"])))
+            if bp["dir"]:
+                invocations.append((bp["dir"], False, ws["package_dir"] and os.path.join(root, ws["package_dir"])))
         for bp in ws["buildpacks"]:
             if bp["kind"] in ("libcnb", "composite") and ws["name"] in ("w1", "w2", "w5"):
                 # a relative --package-dir is relative to the invocation directory
